@@ -174,11 +174,14 @@ def adapter_heap(v, ex):
     return p, inst
 
 
-def simple_term_facts(ex, v, val, p, name):
-    """preconditions from the property's quantifier: terms are simple-label terms; feature labels are distinct per list"""
+def simple_term_facts(ex, v, val, p, name, any_terms=False):
+    """preconditions from the property's quantifier: terms are simple-label terms (unless any_terms: C09 compares metrics by
+    label and value only); feature labels are distinct per list"""
     facts = []
 
     def term_ok(term):
+        if any_terms:
+            return z3.BoolVal(True)
         return eq(term, term_from_label(ex, v, term.fields["label"], p))
 
     def accepted(o):
@@ -225,8 +228,16 @@ def simple_term_facts(ex, v, val, p, name):
     return facts
 
 
-def roundtrip_obligations(v, adapter_cls, prop="C01"):
-    """obligations y.f == x.f for every declared field f of the data class of `adapter_cls`"""
+def by_label(lst):
+    """a list of Features seen as the list of (label, value) pairs -- what the label-keyed AOEF mapping can carry"""
+    if lst.concrete:
+        return Lst(items=[Tup([f.fields["term"].fields["label"], f.fields["value"]]) for f in lst.items])
+    return Lst(n=lst.n, at=lambda i: Tup([lst.at(i).fields["term"].fields["label"], lst.at(i).fields["value"]]))
+
+
+def roundtrip_obligations(v, adapter_cls, prop="C01", label_fields=()):
+    """obligations y.f == x.f for every declared field f of the data class of `adapter_cls`
+    (label_fields: only these fields, compared as (label, value) lists, with arbitrary terms -- C09's metrics clause)"""
     dcls = DATA_OF[adapter_cls]
     m_ad, c_ad, _ = v.repo.class_def(adapter_cls)
     bg = []
@@ -236,7 +247,7 @@ def roundtrip_obligations(v, adapter_cls, prop="C01"):
     sb = StubBuilder(v.repo, stub_resolver(v.repo))
     x = SymBuilder.make_obj(sb, dcls, "x", ())          # the object itself in full; managed sub-objects as stubs
     bg += sb.wf
-    pre = simple_term_facts(ex, v, x, p, "x")
+    pre = simple_term_facts(ex, v, x, p, "x", any_terms=bool(label_fields))
     # x is a valid object of its class: its own constructor accepts its fields (the C04 invariants)
     if dcls in NO_VALIDATORS:
         ex.handlers = dict(ex.handlers)
@@ -276,9 +287,12 @@ def roundtrip_obligations(v, adapter_cls, prop="C01"):
                 obls.append(Obligation(f"{base}/type#{n_paths}", "post", [z3.BoolVal(True)], meta=dict(got=str(type(y)))))
                 continue
             for f in fields:
-                if f not in x.fields:
+                if f not in x.fields or (label_fields and f not in label_fields):
                     continue  # field type outside the modelled subset (reported once below)
-                goal = eq(y.fields[f], x.fields[f]) if f in y.fields else z3.BoolVal(False)
+                if label_fields:
+                    goal = eq(by_label(y.fields[f]), by_label(x.fields[f])) if f in y.fields else z3.BoolVal(False)
+                else:
+                    goal = eq(y.fields[f], x.fields[f]) if f in y.fields else z3.BoolVal(False)
                 obls.append(Obligation(f"{base}/field-{f}#{n_paths}", "post", list(ex.bg) + q2.cond + [z3.Not(goal)],
                                        inputs={"x": x}, meta=dict(field=f, adapter=short)))
             if n_paths == 1:
@@ -292,7 +306,7 @@ def roundtrip_obligations(v, adapter_cls, prop="C01"):
     return obls, unmodelled
 
 
-def collection_roundtrip(v, tname, dcls, acls, prop="C01"):
+def collection_roundtrip(v, tname, dcls, acls, prop="C01", label_fields=()):
     """y.f == x.f for the collection's OWN fields: the real to_aoef then the real to_soundevent of the collection adapter,
     sub-adapter calls under the base-class contract (objects by identity; their content is their adapters' obligation)."""
     from pyvc.calls import instantiate
@@ -343,7 +357,7 @@ def collection_roundtrip(v, tname, dcls, acls, prop="C01"):
     x = SymBuilder.make_obj(sb, dcls, "x", ())
     xbox.append(x)
     bg += sb.wf
-    p = Path(list(p.cond) + simple_term_facts(ex, v, x, p, "x"), p.env, None, p.heap)
+    p = Path(list(p.cond) + simple_term_facts(ex, v, x, p, "x", any_terms=bool(label_fields)), p.env, None, p.heap)
     base = f"{prop}/collection/{tname}/own-fields"
     obls = []
     fm, fn_save, _, fq = v.repo.find_method(acls, "to_aoef")
@@ -357,9 +371,12 @@ def collection_roundtrip(v, tname, dcls, acls, prop="C01"):
         for q2, y in loaded:
             n_paths += 1
             for f in fields:
-                if f not in x.fields:
+                if f not in x.fields or (label_fields and f not in label_fields):
                     continue
-                goal = eq(y.fields[f], x.fields[f]) if isinstance(y, Obj) and f in y.fields else z3.BoolVal(False)
+                if label_fields:
+                    goal = eq(by_label(y.fields[f]), by_label(x.fields[f])) if isinstance(y, Obj) and f in y.fields else z3.BoolVal(False)
+                else:
+                    goal = eq(y.fields[f], x.fields[f]) if isinstance(y, Obj) and f in y.fields else z3.BoolVal(False)
                 obls.append(Obligation(f"{base}/field-{f}#{n_paths}", "post", list(ex.bg) + q2.cond + [z3.Not(goal)], meta=dict(field=f)))
     for o in ex.outcomes[mark:]:
         if o.kind == "raise":
